@@ -304,6 +304,19 @@ func veryLongLen(r *core.Rng) int {
 func respell(r *core.Rng, id string) string {
 	f := strings.Split(id, "/")
 	i := r.Intn(len(f))
+	if r.P(0.15) { // many leading zeros (the numeral is still the same number): IDs of 100..300 bytes
+		z := strings.Repeat("0", int(r.Range(17, 120)))
+		for k := range f {
+			if k == i || r.P(0.4) {
+				if strings.HasPrefix(f[k], "-") {
+					f[k] = "-" + z + f[k][1:]
+				} else {
+					f[k] = z + f[k]
+				}
+			}
+		}
+		return strings.Join(f, "/")
+	}
 	switch {
 	case f[i] == "0" && r.Bool():
 		f[i] = "-0"
@@ -315,4 +328,60 @@ func respell(r *core.Rng, id string) string {
 		f[i] = "00" + f[i]
 	}
 	return strings.Join(f, "/")
+}
+
+// packedAlias returns, for the index x at zoom h, an index x2 at a different zoom h2 such that a key that packs zoom
+// and index into one integer as zoom<<k | index (or zoom<<k + index) with k too small for the index is the same for
+// both: x2 = x + (h-h2)<<k, k in {32, 33, 34, 30, 24}. ok is false when no such zoom/index exists for the draw.
+func packedAlias(r *core.Rng, x, h int64) (x2, h2 int64, ok bool) {
+	k := []uint{32, 32, 33, 34, 30, 24}[r.Intn(6)]
+	d := r.Range(1, 2)
+	if r.Bool() {
+		d = -d
+	}
+	h2 = h + d
+	if h2 < 0 || h2 > 35 {
+		return 0, 0, false
+	}
+	x2 = x - d<<k
+	if x2 < 0 || x2 >= pow2(h2) {
+		return 0, 0, false
+	}
+	return x2, h2, true
+}
+
+// packedAliasID draws a pair of IDs (different horizontal zooms >= 25) whose x AND y collide under a packed
+// (zoom<<k + index) key while all other fields agree.
+func packedAliasID(r *core.Rng) (a, b ref.ID, ok bool) {
+	for try := 0; try < 20; try++ {
+		k := []uint{32, 32, 33, 30, 24}[r.Intn(5)]
+		h := r.Range(int64(k)+1, 35)
+		d := r.Range(1, 2)
+		if h+d > 35 {
+			d = 1
+		}
+		if h+d > 35 {
+			continue
+		}
+		// a at zoom h+d with small indices, b at zoom h with index + d<<k
+		v := genZoom(r)
+		a = ref.ID{H: h + d, X: r.I64n(pow2(int64(k))), Y: r.I64n(pow2(int64(k))), V: v, F: edgeF(r, v)}
+		if r.Bool() {
+			a.X, a.Y = r.Range(0, 9), r.Range(0, 9)
+		}
+		b = a
+		b.H = h
+		b.X, b.Y = a.X+d<<k, a.Y+d<<k
+		if r.P(0.3) {
+			b.Y = a.Y // only x aliased; y literally equal
+		}
+		if b.X >= pow2(h) || b.Y >= pow2(h) {
+			continue
+		}
+		if r.Bool() {
+			a, b = b, a
+		}
+		return a, b, true
+	}
+	return a, b, false
 }
